@@ -6,7 +6,7 @@ DECIDES = ('in SplineGeometry.__eq__ every defining component (parametric dimens
            'vectors, homogeneous control points) is compared between self and other and every such comparison result '
            'can reach `return False` (EQ1/KD3), and an index used to walk the coordinates of compared elements runs over the length of those elements (EQ1 extent: the weight slot is compared too); tolerance bounds are magnitudes, not digit counts (KD2); every '
            'comparison incl. its tolerance is symmetric under exchanging the operands (EQ3); __ne__ negates __eq__ (EQ4); '
-           'no subclass overrides __eq__/__ne__ (EQ5); __deepcopy__ copies every attribute through copy.deepcopy and pre-seeds the memo only for self and the cache, so a copy carries the compared components of its source (IV4); the compared control point storage of a shape is its own - setters store fresh structures (ES1) - and the rational setters store on every normally returning path (WS4), so a change made through the public setters is always visible to the comparison of exactly one shape.')
+           'no subclass overrides __eq__/__ne__ (EQ5); __deepcopy__ copies every attribute through copy.deepcopy and pre-seeds the memo only for self and the cache, so a copy carries the compared components of its source (IV4); the compared control point storage of a shape is its own - setters store fresh structures (ES1) - and the rational setters store on every normally returning path (WS4), so a change made through the public setters is always visible to the comparison of exactly one shape. the knot vector stored by a normalising shape is a new list (PU6).')
 NOT_DECIDED = 'nothing numerical is involved; transitivity is not an equivalence property of a tolerance comparison and is not claimed.'
 
 COMPONENTS = {
@@ -394,6 +394,8 @@ def check(m, run):
     from . import c09
     c09.no_escape(m, run)
     c09.setters(m, run)
+    from . import c03
+    c03.normalize_fresh(m, run)    # ... and so is the stored knot vector of a (default) normalising shape
     run.floor('EQ1.compared', 6, 'six components named by the property')
     run.floor('EQ3.symmetry', 4, 'pinned tree has 6 self/other comparisons')
     run.floor('KD2.tolerance-kind', 1, 'knot vectors and control points are compared with a tolerance')
